@@ -243,6 +243,7 @@ func scenarioNamed(k, limit int, strategy, algs string) (o nobs) {
 	rec.settle(time.Millisecond)
 	rec.check(func() bool { o.maxrun = rec.maxrun; return true })
 	// ---- direct observations ----
+	openAll() // the sequential reference runs below must never block
 	if n.Cmp(n0) != 0 {
 		o.notes = append(o.notes, "the target was modified")
 	}
@@ -328,7 +329,11 @@ func observeNamed(c string) nobs {
 		return o
 	}
 	f := strings.Split(c, " ")
-	o = scenarioNamed(lib.Atoi(field(f[1], "k")), lib.Atoi(field(f[2], "limit")), field(f[3], "strategy"), field(f[4], "algs"))
+	k, limit := lib.Atoi(field(f[1], "k")), lib.Atoi(field(f[2], "limit"))
+	if w := guarded(func() { o2 := scenarioNamed(k, limit, field(f[3], "strategy"), field(f[4], "algs")); o = o2 }); w != "" {
+		_, vals := parseAlgs(field(f[4], "algs"))
+		o = nobs{k: k, limit: limit, vals: vals, sat: -1, problem: w}
+	}
 	cacheMu.Lock()
 	ncache[c] = o
 	if len(ncache) > 64 {
@@ -346,7 +351,7 @@ func observeNamed(c string) nobs {
 func oracleNamed(c string) string {
 	o := observeNamed(c)
 	if o.problem != "" {
-		return "schedule could not be driven: " + o.problem
+		return describeProblem(o.problem)
 	}
 	f := strings.Split(c, " ")
 	sname, _ := parseStrategy(o.k, field(f[3], "strategy"))
@@ -361,8 +366,15 @@ func oracleNamed(c string) string {
 	if got != strings.Join(want, ",") {
 		bad = append(bad, fmt.Sprintf("position i does not hold the result of the i-th algorithm: slots=%s, algorithm values=%s", got, strings.Join(want, ",")))
 	}
+	for i, sl := range o.slots {
+		if sl == "e" {
+			bad = append(bad, fmt.Sprintf("position %d holds a zero-valued result", i))
+		}
+	}
 	for _, v := range firstSeen(o.vals) {
-		if o.calls[v] != occ[v] {
+		if o.calls[v] == 0 {
+			bad = append(bad, fmt.Sprintf("algorithm value %d (%q) never entered FindChain when Execute returned", v, o.vname[v]))
+		} else if o.calls[v] != occ[v] {
 			bad = append(bad, fmt.Sprintf("algorithm value %d (%q) is listed %d time(s) but FindChain had been called %d time(s) when Execute returned", v, o.vname[v], occ[v], o.calls[v]))
 		}
 	}
@@ -401,6 +413,18 @@ func genNamed(tier string, r *lib.Rand, emit func(string)) {
 		"17.0,17.13,1.2",   // stubs named like the best ensemble algorithm; value 13 is a real one
 		"18.1,2.2,18.6,18.1", //
 		"0.0,0.1,0.2,0.3,0.4", //
+		// failing algorithms (values 3, 7, 11, 15) at every position, unique names
+		"0.3,1.0",            // first of two
+		"0.0,1.3",            // last of two
+		"0.3,1.0,2.1",        // first
+		"0.0,1.3,2.1",        // middle
+		"0.0,1.1,2.3",        // last
+		"0.3,1.7,2.0",        // two in a row, then a good one
+		"0.0,1.3,2.7,3.1",    // two in a row in the middle
+		"0.3,1.7,2.11,3.0,4.1", // three in a row >= limit 1, 2
+		"0.3,1.0,2.7,3.1,4.11", // alternating
+		"0.3,1.7,2.11",       // all failing
+		"0.4,1.3,2.0",        // wrong chain, failing, good
 	}
 	nrand := 12
 	if tier == "thorough" {
@@ -439,7 +463,7 @@ func genNamed(tier string, r *lib.Rand, emit func(string)) {
 	for _, spec := range specs {
 		_, vals := parseAlgs(spec)
 		k := len(vals)
-		for _, limit := range []int{1, 2, k + 1} {
+		for _, limit := range uniqInts(1, 2, k, k+1) {
 			do(k, limit, "free:0", spec)
 			if limit <= 2 {
 				do(k, limit, "saturate", spec)
@@ -455,4 +479,16 @@ func genNamed(tier string, r *lib.Rand, emit func(string)) {
 			}
 		}
 	}
+}
+
+func uniqInts(xs ...int) []int {
+	var out []int
+	seen := map[int]bool{}
+	for _, x := range xs {
+		if !seen[x] {
+			seen[x] = true
+			out = append(out, x)
+		}
+	}
+	return out
 }
